@@ -75,12 +75,18 @@ fn normalise(dec: &J) -> J {
                     keys.len() as u64
                 };
             }
+            // the value lists stored inline in a multimap leaf: ordered by the value type
+            let vtype = t["value_type"].as_str().unwrap_or("");
+            let inl: Vec<J> = p.get("multimap_inline").and_then(|x| x.as_array()).map_or(vec![], |entries| {
+                entries.iter().map(|vals| json!(vals.as_array().unwrap().iter()
+                    .map(|v| norm_key(vtype, &v.as_array().unwrap().iter().map(|b| b.as_u64().unwrap()).collect::<Vec<u64>>())).collect::<Vec<_>>())).collect()
+            });
             let order = p["page"][2].as_u64().unwrap();
             pages.push(json!({
                 "id": pid(&p["page"]), "t": if leaf { "l" } else { "b" }, "d": p["depth"], "keys": keys,
                 "ch": p.get("children").and_then(|c| c.as_array()).map_or(vec![], |c| c.iter().map(pid).collect::<Vec<u64>>()),
                 "ck": p["stored_checksum"] == p["computed_checksum"],
-                "lo": pid(&p["page"]), "n": 1u64 << order,
+                "lo": pid(&p["page"]), "n": 1u64 << order, "inl": inl,
             }));
         }
         trees.push(json!({
@@ -242,6 +248,23 @@ fn main() {
         }
         if hit {
             variants.push(("separator-equals-next", v));
+        }
+        // two values of an inline multimap collection swapped
+        let mut v = img.clone();
+        let mut hit = false;
+        'o2: for t in v["trees"].as_array_mut().unwrap() {
+            for p in t["pages"].as_array_mut().unwrap() {
+                for e in p["inl"].as_array_mut().unwrap() {
+                    if e.as_array().unwrap().len() >= 2 {
+                        e.as_array_mut().unwrap().swap(0, 1);
+                        hit = true;
+                        break 'o2;
+                    }
+                }
+            }
+        }
+        if hit {
+            variants.push(("inline-order", v));
         }
         for (name, v) in variants {
             let mut w = TraceWriter::create(&format!("{dir}/{name}.ndjson"));
